@@ -1033,7 +1033,8 @@ PROPS["C08"] = {
             "half of the schedules are ONE-PREEMPTION schedules (thread a passes k<28 points — among them poll_next:settled, between "
             "a hosted command's last look at its ready queue and its return — then thread b runs to its end, then a resumes), and a "
             "third of the cases are sibling work inside one command (two requests / streams of one and / all / task pair answered "
-            "concurrently). stress: 240 000 / 3 000 000 free-running rounds on real threads (no schedule) of five fixed histories "
+            "concurrently); one case in twenty parks a thread INSIDE the app's view() (a schedule point in user code: the core holds "
+            "the model's read lock) while another delivers a response or event whose update emits a further effect. stress: 240 000 / 3 000 000 free-running rounds on real threads (no schedule) of five fixed histories "
             "(follow-up request per stream item through both APIs, two requests of one command, of two legacy tasks, stream item + "
             "event), same linearizability oracle — the only way to reach races inside regions where the code holds a lock (no "
             "schedule point may lie there); detection there is probabilistic (≈7·10^-5 per round for the seeded C08-f). "
